@@ -17,6 +17,7 @@ import (
 	"os/exec"
 	"path/filepath"
 	"runtime"
+	"sort"
 	"strconv"
 	"strings"
 	"sync"
@@ -434,6 +435,7 @@ func parseCaseLine(line string) (*Case, error) {
 // ---------- workers ----------
 
 type outcomeRec struct {
+	ms      int
 	cs      *Case
 	res     *Result
 	panicTx string // stderr of the child when it died during this case
@@ -591,7 +593,9 @@ func runAll(cases []*Case, nworkers int) []outcomeRec {
 						continue
 					}
 				}
+				tc := time.Now()
 				o, alive := p.runOne(cases[i])
+				o.ms = int(time.Since(tc).Milliseconds())
 				out[i] = o
 				if !alive {
 					p = nil
@@ -720,8 +724,8 @@ func main() {
 		}
 	} else {
 		g.corpus()
-		g.structured(ctx.Budget(1500, 12000))
-		g.malformed(ctx.Budget(450, 4000))
+		g.structured(ctx.Budget(800, 12000))
+		g.malformed(ctx.Budget(240, 4000))
 		if ctx.Thorough {
 			for proto := 0; proto < 3; proto++ {
 				for creds := 0; creds < 2; creds++ {
@@ -779,6 +783,23 @@ func main() {
 		if evs[i].wasSuspect && !evs[i].suspect() {
 			cured++
 		}
+	}
+	if os.Getenv("CLIENTSM_PROFILE") != "" {
+		type tm struct {
+			ms  int
+			tag string
+		}
+		var all []tm
+		tot := map[string]int{}
+		for _, o := range results {
+			all = append(all, tm{o.ms, o.cs.Tag + " " + caseLine(o.cs, nil)})
+			tot[o.cs.Tag] += o.ms
+		}
+		sort.Slice(all, func(i, j int) bool { return all[i].ms > all[j].ms })
+		for i := 0; i < 15 && i < len(all); i++ {
+			fmt.Fprintf(os.Stderr, "%6d ms %s\n", all[i].ms, all[i].tag)
+		}
+		fmt.Fprintln(os.Stderr, tot)
 	}
 	ctx.Extra("wall_children_s", time.Since(t0).Seconds())
 	ctx.Extra("workers", nw)
